@@ -111,7 +111,7 @@ def plan_graph_shards(space, n_max=None, k=None, chunk=64, parts=8, with_ext=Fal
         tl = tree_list if tree_list is not None else [t for n in range(n_min, n_max + 1) for t in trees(n)]
         for t in tl:
             for j in range(0, k + 1):
-                p = 1 if j < 2 else parts
+                p = 1 if j == 0 else parts
                 for i in range(p):
                     shards.append(
                         {"space": "B", "tree": t, "edges": j, "i": i, "n": p, "ext": with_ext,
